@@ -71,12 +71,22 @@ func (x *H2) Same() (string, error)   { x.h.inc(x.inst + "/Same"); return x.inst
 func (x *H2) Other() (string, error)  { x.h.inc(x.inst + "/Other"); return x.inst + "/Other", nil }
 func (x *H2) LowerX() (string, error) { x.h.inc(x.inst + "/LowerX"); return x.inst + "/LowerX", nil }
 
+// H3 is registered in the empty namespace with a method whose name, concatenated with that namespace,
+// reads like namespace A + method M.
+type H3 struct {
+	inst string
+	h    *hit
+}
+
+func (x *H3) AM() (string, error)     { x.h.inc(x.inst + "/AM"); return x.inst + "/AM", nil }
+func (x *H3) BOther() (string, error) { x.h.inc(x.inst + "/BOther"); return x.inst + "/BOther", nil }
+
 type reg struct {
 	ns, inst string
 	methods  []string
 }
 
-var c12Regs = []reg{{"A", "a", []string{"M", "N", "Same"}}, {"B", "b", []string{"M", "Same", "Other", "LowerX"}}, {"", "e", []string{"M", "N", "Same"}}}
+var c12Regs = []reg{{"A", "a", []string{"M", "N", "Same"}}, {"B", "b", []string{"M", "Same", "Other", "LowerX"}}, {"", "e", []string{"M", "N", "Same"}}, {"", "e3", []string{"AM", "BOther"}}}
 
 var c12AliasTables = []map[string]string{
 	{},
@@ -137,12 +147,13 @@ func (p c12) Run(sc core.Scenario) core.Result {
 	return r.Result()
 }
 
-func c12Server(fm jsonrpc.MethodNameFormatter, aliases map[string]string) (*jsonrpc.RPCServer, *hit, map[string][]string) {
+func c12Server(fm jsonrpc.MethodNameFormatter, ref func(ns, m string) string, aliases map[string]string) (*jsonrpc.RPCServer, *hit, map[string][]string) {
 	h := &hit{m: map[string]int{}}
 	rpc := jsonrpc.NewServer(jsonrpc.WithServerMethodNameFormatter(fm))
 	rpc.Register("A", &H1{"a", h})
 	rpc.Register("B", &H2{"b", h})
 	rpc.Register("", &H1{"e", h})
+	rpc.Register("", &H3{"e3", h})
 	for k, v := range aliases {
 		rpc.AliasMethod(k, v)
 	}
@@ -150,7 +161,7 @@ func c12Server(fm jsonrpc.MethodNameFormatter, aliases map[string]string) (*json
 	table := map[string][]string{}
 	for _, rg := range c12Regs {
 		for _, m := range rg.methods {
-			n := fm(rg.ns, m)
+			n := ref(rg.ns, m)
 			table[n] = append(table[n], rg.inst+"/"+m)
 		}
 	}
@@ -194,13 +205,13 @@ func diff(before, after map[string]int) []string {
 func (c12) names(sc core.Scenario, r *core.R) {
 	fm := c01Formatters[sc.I("fmt")]
 	aliases := c12AliasTables[sc.I("alias")]
-	rpc, h, table := c12Server(fm.f, aliases)
+	rpc, h, table := c12Server(fm.f, fm.ref, aliases)
 	// candidate universe
 	cand := map[string]bool{"": true, "A.": true, ".M": true, "M": true, "m": true, ".": true, "A": true, "A.M.": true, " A.M": true, "A..M": true, "a.M": true, "A.m": true, "B.lowerX": true, "B.LowerX": true, "lowerX": true}
 	for _, f2 := range c01Formatters {
 		for _, rg := range c12Regs {
 			for _, m := range append(append([]string{}, rg.methods...), "Other", "N", "Nope") {
-				n := f2.f(rg.ns, m)
+				n := f2.ref(rg.ns, m)
 				cand[n] = true
 				cand[strings.ToUpper(n)] = true
 				cand[strings.ToLower(n)] = true
@@ -271,9 +282,9 @@ func (c12) dynamic(sc core.Scenario, r *core.R) {
 	for k, v := range c12AliasTables[sc.I("alias")] {
 		aliases[k] = v
 	}
-	rpc, h, table := c12Server(fm.f, aliases)
+	rpc, h, table := c12Server(fm.f, fm.ref, aliases)
 	probe := func(step string) {
-		names := []string{"Late.X", "Late.Y", "short", "Al.One", fm.f("A", "M"), fm.f("B", "Other"), fm.f("C", "M"), fm.f("C", "N"), "Nope"}
+		names := []string{"Late.X", "Late.Y", "short", "Al.One", fm.ref("A", "M"), fm.ref("B", "Other"), fm.ref("C", "M"), fm.ref("C", "N"), "Nope"}
 		for k := range aliases {
 			names = append(names, k)
 		}
@@ -288,18 +299,18 @@ func (c12) dynamic(sc core.Scenario, r *core.R) {
 		name string
 		do   func()
 	}{
-		{"alias Late.X -> A.M added", func() { rpc.AliasMethod("Late.X", fm.f("A", "M")); aliases["Late.X"] = fm.f("A", "M") }},
-		{"alias Late.X re-pointed to B.Other", func() { rpc.AliasMethod("Late.X", fm.f("B", "Other")); aliases["Late.X"] = fm.f("B", "Other") }},
-		{"alias Late.Y -> C.N added before C exists", func() { rpc.AliasMethod("Late.Y", fm.f("C", "N")); aliases["Late.Y"] = fm.f("C", "N") }},
+		{"alias Late.X -> A.M added", func() { rpc.AliasMethod("Late.X", fm.ref("A", "M")); aliases["Late.X"] = fm.ref("A", "M") }},
+		{"alias Late.X re-pointed to B.Other", func() { rpc.AliasMethod("Late.X", fm.ref("B", "Other")); aliases["Late.X"] = fm.ref("B", "Other") }},
+		{"alias Late.Y -> C.N added before C exists", func() { rpc.AliasMethod("Late.Y", fm.ref("C", "N")); aliases["Late.Y"] = fm.ref("C", "N") }},
 		{"namespace C registered", func() {
 			rpc.Register("C", &H1{"c", h})
 			for _, m := range []string{"M", "N", "Same"} {
-				n := fm.f("C", m)
+				n := fm.ref("C", m)
 				table[n] = append(table[n], "c/"+m)
 			}
 		}},
 		{"alias Late.X re-pointed to a missing target", func() { rpc.AliasMethod("Late.X", "No.Such"); aliases["Late.X"] = "No.Such" }},
-		{"alias short re-pointed to C.M", func() { rpc.AliasMethod("short", fm.f("C", "M")); aliases["short"] = fm.f("C", "M") }},
+		{"alias short re-pointed to C.M", func() { rpc.AliasMethod("short", fm.ref("C", "M")); aliases["short"] = fm.ref("C", "M") }},
 	}
 	for _, st := range steps {
 		st.do()
@@ -333,7 +344,7 @@ type cliB struct {
 func (c12) clients(sc core.Scenario, r *core.R) {
 	fm := c01Formatters[sc.I("fmt")]
 	tr := sc.Str("transport")
-	rpc, h, table := c12Server(fm.f, nil)
+	rpc, h, table := c12Server(fm.f, fm.ref, nil)
 	ts := httptest.NewServer(rpc)
 	defer ts.Close()
 	addr := tr + "://" + ts.Listener.Addr().String()
@@ -341,7 +352,7 @@ func (c12) clients(sc core.Scenario, r *core.R) {
 		before := h.snap()
 		res, err := f()
 		ran := diff(before, h.snap())
-		want := table[fm.f(ns, m)]
+		want := table[fm.ref(ns, m)]
 		r.Obs("client_calls", 1)
 		r.AddKey(fmt.Sprintf("cli|%s|%s|%s.%s", fm.name, tr, ns, m))
 		if err != nil || len(ran) != 1 || !contains(want, ran[0]) || res != ran[0] {
@@ -375,8 +386,8 @@ func (c12) clients(sc core.Scenario, r *core.R) {
 	closer()
 	// explicit method tags: the tag is the server-side name, whatever formatter the client has
 	tagT := reflect.StructOf([]reflect.StructField{
-		{Name: "X", Type: reflect.TypeOf(cb.M), Tag: reflect.StructTag(fmt.Sprintf(`rpc_method:%q`, fm.f("B", "Other")))},
-		{Name: "Y", Type: reflect.TypeOf(cb.M), Tag: reflect.StructTag(fmt.Sprintf(`rpc_method:%q`, fm.f("A", "N")))},
+		{Name: "X", Type: reflect.TypeOf(cb.M), Tag: reflect.StructTag(fmt.Sprintf(`rpc_method:%q`, fm.ref("B", "Other")))},
+		{Name: "Y", Type: reflect.TypeOf(cb.M), Tag: reflect.StructTag(fmt.Sprintf(`rpc_method:%q`, fm.ref("A", "N")))},
 	})
 	tv := reflect.New(tagT)
 	closer, err = jsonrpc.NewMergeClient(context.Background(), addr, "Whatever", []interface{}{tv.Interface()}, nil)
@@ -388,11 +399,11 @@ func (c12) clients(sc core.Scenario, r *core.R) {
 		before := h.snap()
 		out := tv.Elem().Field(i).Call(nil)
 		ran := diff(before, h.snap())
-		want := table[fm.f(exp[0], exp[1])]
+		want := table[fm.ref(exp[0], exp[1])]
 		r.Obs("client_calls", 1)
 		r.AddKey(fmt.Sprintf("tag|%s|%s|%s.%s", fm.name, tr, exp[0], exp[1]))
 		if !out[1].IsNil() || len(ran) != 1 || !contains(want, ran[0]) {
-			r.Violate("tag-disagree", "formatter=%s %s: client field tagged rpc_method=%q reached %v (err %v), expected one of %v", fm.name, tr, fm.f(exp[0], exp[1]), ran, out[1].Interface(), want)
+			r.Violate("tag-disagree", "formatter=%s %s: client field tagged rpc_method=%q reached %v (err %v), expected one of %v", fm.name, tr, fm.ref(exp[0], exp[1]), ran, out[1].Interface(), want)
 		}
 	}
 	closer()
